@@ -104,7 +104,7 @@ def cases(seed, tier):
     for r in range(6 if tier == 'quick' else 40):
         out.append({'mode': 'raises', 'seed': int(rng.integers(1 << 31))})
     for r in range(12 if tier == 'quick' else 80):
-        out.append({'mode': 'datasets', 'size': int(rng.choice([1, 17, 1000])), 'ds_seed': int(rng.integers(1 << 20)),
+        out.append({'mode': 'datasets', 'size': int(rng.choice([1, 17, 1000])), 'ds_seed': 0 if r % 4 == 0 else int(rng.integers(1 << 20)),
                     'seed': int(rng.integers(1 << 31))})
     return out
 
@@ -296,6 +296,19 @@ def _unseeded(spec, ctx):
     ctx.check(_as_bytes(x1) == _as_bytes(x2), 'seeded.equal-models-equal-streams', 'C15:equal-models-same-seed-differ', where)
     if not constant:
         ctx.check(_as_bytes(x1) != _as_bytes(y1), 'seeded.stream-advances', 'C15:successive-calls-do-not-advance', where)
+    # one RandomState object given to two equal models: it is the caller's object - both models start from its
+    # state, and sampling must not advance it
+    shared = np.random.RandomState(s + 1)
+    before = hashlib.sha1(shared.get_state()[1].tobytes() + repr(shared.get_state()[2:]).encode()).hexdigest()
+    m3, m4 = copy.deepcopy(m), copy.deepcopy(m)
+    m3.set_random_state(shared)
+    m4.set_random_state(shared)
+    z3 = sampler(m3, 5)
+    z4 = sampler(m4, 5)
+    after = hashlib.sha1(shared.get_state()[1].tobytes() + repr(shared.get_state()[2:]).encode()).hexdigest()
+    ctx.check(before == after, 'seeded.caller-RandomState-untouched', 'C15:sampling-advances-the-callers-RandomState-object', where)
+    ctx.check(_as_bytes(z3) == _as_bytes(z4), 'seeded.equal-models-equal-streams', 'C15:equal-models-same-seed-differ',
+              dict(where, seed='shared RandomState object'))
     _drain(ctx, where)
     ctx.nontriv('u|%s|%d' % (spec['kind'], spec['seed']))
 
